@@ -884,7 +884,7 @@ fn audit() -> serde_json::Value {
        "covered": "the full value (crdt, vector clock, expiry, stamp, rf) AND every public accessor of every operand and result (A lines: get, is_tombstone, crdt_type, is_lww, is_hash, lww, get_hash, hash_get, get_replica_count, value, is_empty, contains, len, get_tags, VectorClock::get, get_replication_factor); the three laws are evaluated on the values and once more through the accessors; Lean: obs_all_idem / comm / assoc_partial",
        "open": ""},
       {"class": 10, "topic": "finding signatures", "covered": "C07:assoc:cross-kind:crdt (kinds mixed, field 'crdt' differs) and C07:comm:deprecated-crdt-merge:cross-kind (only across kinds: the same-kind variant is a violation) are disjoint from every other failure of the laws", "open": ""},
-      {"class": 11, "topic": "harness fragility", "covered": "the function list comes from the source the binary was built against; a failed or implausibly short scan is a violation; a value the mirror cannot read is a named case, not a panic", "open": ""},
+      {"class": 11, "topic": "harness fragility", "covered": "the function list comes from the source the binary was built against — round 2: from the MODULE TREE of each anchored file (child modules declared with `mod x;`; a type moved into lattice/clock.rs keeps its coverage rows), a new pub fn that nothing in the crate names is listed (new_uncalled_pub_fns), not a violation; a failed or implausibly short scan is a violation; a value the mirror cannot read is a named case, not a panic", "open": ""},
       {"class": "session-4", "topic": "what session 4 added",
        "covered": "observations: every value of the reachable pools carries its key; pairs of ONE key (deltas, stored values, merges of those — what C07.Reach ranges over, over-sampled) must be tie-consistent (C07:reach:tie-inconsistent:*; theorem reachable_tie_consistent) and commute with no exclusion; comparisons: counts / Lamport times / expiries / rf at integer-width boundaries (2^31, 2^32±1, 2^53, 2^63, u64::MAX), both operands often on the same edge; capacity: hashes with 33..40 fields",
        "open": "counts above 2^53 (value() sums would overflow u64 under overflow-checks: Nat model)"},
